@@ -37,12 +37,12 @@ Proof.
   assert (LS : length s = length (unparse_items l) + (length tr + (length (stray_text c) + length g))).
   { unfold s. rewrite !app_length. reflexivity. }
   unfold parse_top. fold s.
-  assert (H2 : run s true cx (parse_fuel s) (TGeneral ps0 top_opts 0)
+  assert (H2 : run s true cx (parse_fuel s cx) (TGeneral ps0 top_opts 0)
                = PErr (rewrap 0 (fail_err ps0 (fst A) (0 + length (unparse_items l)) (stray_tk c) (stray_arg c)
                                           (0 + length (unparse_items l) + length tr + length (stray_text c)) tr []
                                           (stray_what c)))
                       (0 + length (unparse_items l) + length tr + length (stray_text c))).
-  { apply (run_mono s true cx (S (1 + 8 * length (unparse_items l)))); [|discriminate|unfold parse_fuel; lia].
+  { apply (run_mono s true cx (S (1 + 8 * length (unparse_items l)))); [|discriminate|pose proof (parse_fuel_ge s cx); lia].
     cbn [run]. fold ps0. fold A. rewrite H1. reflexivity. }
   rewrite H2. cbn [parse_content rewrap fail_err mkerr pe_at pe_past pe_nodes]. reflexivity.
 Qed.
@@ -80,30 +80,34 @@ Definition settled (cx : context) (l : list item) : list (option node) :=
 
 Theorem prefix_any_items cx l fol :
   let ps0 := walker_state cx in
-  ctx_wf cx = true -> ok_items cx ps0 l (hd_error fol) = true ->
+  ok_items cx ps0 l (hd_error fol) = true ->
   exists a b rest p,
     parse_top (unparse_items l ++ fol) true cx ps0 = Ok (ONode (Some (NList a b (settled cx l ++ rest)))) p.
 Proof.
-  intros ps0 WF OKL. apply Nat.leb_le in WF.
+  intros ps0 OKL.
   set (s := unparse_items l ++ fol).
   set (A := fst (absorb cx ps0 0 cs_empty l)).
   set (n := length (unparse_items l)).
   assert (LS : length s = n + length fol) by (unfold s, n; apply app_length).
   assert (SK : skipn 0 s = unparse_items l ++ fol) by reflexivity.
-  set (k := parse_fuel s - 1 - 8 * n).
+  set (k := parse_fuel s cx - 1 - 8 * n).
   set (t := TCollect ps0 top_opts A (0 + n)).
   assert (TOK : task_ok s cx t).
   { split; [cbn [task_pos t]; lia | split; [apply good_walker_state | exact I]]. }
   assert (NR : run s true cx k t <> OutOfFuel).
-  { apply (run_fuel_enough s true cx 8); [lia | lia | exact TOK|].
-    unfold need, W, cst, k, parse_fuel, t. cbn [task_pos]. lia. }
+  { destruct (fuel_unit_ok cx) as [A4 AM].
+    apply (run_fuel_enough s true cx (fuel_unit cx)); [exact A4 | exact AM | exact TOK|].
+    unfold need, W, cst, k, t. cbn [task_pos]. rewrite parse_fuel_eq, LS. unfold fuel_unit.
+    replace (0 + n + length fol - (0 + n)) with (length fol) by lia.
+    rewrite !Nat.mul_add_distr_r, !Nat.mul_add_distr_l. lia. }
   pose proof (items_sim_t s cx true l ps0 top_opts cs_empty 0 fol k _ (std_walker cx) (opts_ok_2 _ _ (opts_ok_top ps0)) NR OKL SK
                 eq_refl) as H1.
-  replace (k + 8 * length (unparse_items l)) with (parse_fuel s - 1) in H1 by (unfold k, parse_fuel, n; lia).
+  replace (k + 8 * length (unparse_items l)) with (parse_fuel s cx - 1) in H1
+    by (pose proof (parse_fuel_ge s cx); unfold k, n in *; lia).
   pose proof (coll_keeps s cx k ps0 top_opts A (0 + n)) as KA. fold t in KA.
   pose proof (run_shaped s true cx k t TOK) as SH. cbn [kind_of t] in SH.
   unfold parse_top. fold s.
-  replace (parse_fuel s) with (S (parse_fuel s - 1)) by (unfold parse_fuel; lia).
+  replace (parse_fuel s cx) with (S (parse_fuel s cx - 1)) by (pose proof (parse_fuel_ge s cx); lia).
   cbn [run]. fold ps0. fold n in H1. fold A in H1. fold t in H1. rewrite H1.
   destruct (run s true cx k t) as [[nd|st' stopped nlmet eos|ar] p|e p|p|kk|]; cbn [shaped keeps_acc] in *;
     try contradiction; try congruence.
@@ -115,13 +119,13 @@ Proof.
 Qed.
 
 Theorem prefix_any cx d g :
-  ctx_wf cx = true -> ok_doc cx d = true -> (d_trail d = [] -> inertf (hd_error g)) ->
+  ok_doc cx d = true -> (d_trail d = [] -> inertf (hd_error g)) ->
   exists a b rest p,
     parse_top (unparse d ++ g) true cx (walker_state cx)
     = Ok (ONode (Some (NList a b (settled cx (d_items d) ++ rest)))) p.
 Proof.
-  intros WF OKD IF. destruct (ok_doc_follow cx d g OKD IF) as [OKL _].
-  unfold unparse. rewrite <- app_assoc. exact (prefix_any_items cx (d_items d) (d_trail d ++ g) WF OKL).
+  intros OKD IF. destruct (ok_doc_follow cx d g OKD IF) as [OKL _].
+  unfold unparse. rewrite <- app_assoc. exact (prefix_any_items cx (d_items d) (d_trail d ++ g) OKL).
 Qed.
 
 (** the tree of a document is its settled nodes, then at most one character
